@@ -5,6 +5,7 @@ import (
 	"encoding/binary"
 	"encoding/json"
 	"fmt"
+	"github.com/jhalter/mobius/verifh/vrt"
 	"os"
 	"path/filepath"
 	"strings"
@@ -24,7 +25,7 @@ func init() {
 		Rule: "bounded-exhaustive input enumeration with a reference transfer client on the real control and transfer paths: file sizes around every buffer boundary (0..1 MiB+3, thorough 5 MiB) x stored fork sets " +
 			"(none, info, info+comment, info without comment size, info+resource, resource only) x resume offsets (all 0..size for small files, else 0,1,size/2,size-1,size) x names (1 char, 31 chars, space, Mac-Roman, extensions) x preview; " +
 			"distinct = distinct (size class, forks, offset class, preview, observation) tuples",
-		Assumptions: []string{"one empty MACR fork header after the announced transfer size is established behaviour (pinned by the existing download test) and tolerated", "on resume the DATA fork header's size and the presence of a MACR header are not specified by the property and not checked"},
+		Assumptions:    []string{"one empty MACR fork header after the announced transfer size is established behaviour (pinned by the existing download test) and tolerated", "on resume the DATA fork header's size and the presence of a MACR header are not specified by the property and not checked"},
 		Run:            runC08,
 		Replay:         replayC08,
 		MinOutcomes:    10,
@@ -35,13 +36,14 @@ func init() {
 
 type c08Case struct {
 	Size    int    `json:"size"`
-	Name    []byte `json:"name"`  // as sent on the wire (Mac-Roman)
-	Disk    string `json:"disk"`  // name on disk (UTF-8)
-	Forks   string `json:"forks"` // none | info | infoc | infonc | inforsrc | rsrc
+	Name    []byte `json:"name"`   // as sent on the wire (Mac-Roman)
+	Disk    string `json:"disk"`   // name on disk (UTF-8)
+	Forks   string `json:"forks"`  // none | info | infoc | infonc | inforsrc | rsrc
 	Offset  int    `json:"offset"` // -1 = no resume data
 	Preview bool   `json:"preview"`
-	OwnRoot bool   `json:"ownroot"` // the account has its own file root; the server-wide root holds a different file of the same name
-	Partial bool   `json:"partial"` // only a partial upload of the name exists (it is listed under the final name): refused, or served as what it is
+	OwnRoot bool   `json:"ownroot"`           // the account has its own file root; the server-wide root holds a different file of the same name
+	Collide bool   `json:"collide,omitempty"` // another download is granted afterwards and the server's random draw for its reference number is the same
+	Partial bool   `json:"partial"`           // only a partial upload of the name exists (it is listed under the final name): refused, or served as what it is
 }
 
 func c08Data(n int) []byte {
@@ -70,6 +72,7 @@ func c08Run(w *explore.Worker, c c08Case) {
 					root = filepath.Join(filepath.Dir(root), "Rroot")
 					_ = os.MkdirAll(root, 0755)
 				}
+				_ = os.WriteFile(filepath.Join(root, "other.bin"), []byte("another file altogether"), 0644)
 				if c.Partial {
 					_ = os.WriteFile(filepath.Join(root, c.Disk+".incomplete"), data, 0644)
 				} else {
@@ -126,6 +129,12 @@ func c08Run(w *explore.Worker, c c08Case) {
 			return
 		}
 		refnum, _ := rep.Get(ref.FRefNum)
+		if c.Collide && len(refnum) == 4 {
+			// an environment answer the harness decides: the next reference number drawn equals one that is waiting
+			vrt.ForceRand(binary.BigEndian.Uint32(refnum))
+			u.Req(ref.TDownloadFile, ref.FS(ref.FFileName, "other.bin"))
+			world.Quiet()
+		}
 		xs, _ := rep.Get(ref.FTransferSize)
 		fsz, _ := rep.Get(ref.FFileSize)
 		if len(refnum) != 4 || len(xs) != 4 || len(fsz) != 4 {
@@ -254,6 +263,7 @@ func c08Cases(thorough bool) []c08Case {
 	for _, sz := range []int{1, 400, 40000} {
 		for _, k := range []int{-1, 0, 1} {
 			cs = append(cs, c08Case{Size: sz, Name: []byte("f.txt"), Disk: "f.txt", Forks: "none", Offset: k, Partial: true})
+			cs = append(cs, c08Case{Size: sz, Name: []byte("f.txt"), Disk: "f.txt", Forks: "none", Offset: k, Collide: true})
 		}
 	}
 	for _, sz := range []int{0, 8, 513} {
